@@ -466,7 +466,8 @@ func NewStack(cfg Config) (*Stack, error) {
 					ClientID: "cid", ClientSecret: "csecret",
 					Endpoint: xoauth2.Endpoint{AuthURL: "https://provider.test/auth", TokenURL: "https://provider.test/token", AuthStyle: xoauth2.AuthStyleInParams},
 				},
-				FindUserDetails: findUserDetails,
+				FindUserDetails:  findUserDetails,
+				AdditionalParams: url.Values{"access_type": {"offline"}},
 			}
 		}
 		ab.Config.Modules.OAuth2Providers = map[string]authboss.OAuth2Provider{"google": mk(), "fb": mk()}
